@@ -4,6 +4,7 @@ CONSTANTS
   EnvSet <- MCEnvSet
   ArgvSet <- MCArgvSet
   MaxParses = 1
+  EnvChanges = FALSE
 INVARIANTS TypeOK NeverStuck MachineIsMeaning Repeatable ErrorIffDocumented Accounted Ranked RequiredHaveValue TogglesCount PositionalsWithinLimit AfterDDEverythingPositional Emit
 PROPERTIES ScanAccounts Progress
 CHECK_DEADLOCK FALSE
